@@ -73,6 +73,34 @@ func c03(tier string, args []string) int {
 		}
 	}
 	rec(nil)
+	// second pass, in the same process and on the same nodes and machines: the same tasks with
+	// their identifiers rotated among the tasks of the same kind, alone and in pairs - what an
+	// identifier was expanded to in an earlier batch must not matter for a later one
+	var ranges, plains []int
+	for i, t := range alpha {
+		if t.Payload == nil {
+			ranges = append(ranges, i)
+		} else {
+			plains = append(plains, i)
+		}
+	}
+	var relabelled []requests.SigningTask
+	for _, group := range [][]int{ranges, plains} {
+		for gi, i := range group {
+			t := alpha[i]
+			t.MessageID = alpha[group[(gi+1)%len(group)]].MessageID
+			relabelled = append(relabelled, t)
+		}
+	}
+	firstRelabelled := len(batches)
+	for i, a := range relabelled {
+		batches = append(batches, []requests.SigningTask{a})
+		for j, b := range relabelled {
+			if i != j && a.MessageID != b.MessageID {
+				batches = append(batches, []requests.SigningTask{a, b})
+			}
+		}
+	}
 	sw := SetupSignWorld(r, 3, 2, worldx.NumWorkers())
 	defer sw.Close()
 
@@ -96,6 +124,9 @@ func c03(tier string, args []string) int {
 					ids = append(ids, t.MessageID)
 				}
 				trace := map[string]interface{}{"batch": bi, "tasks": ids}
+				if bi >= firstRelabelled {
+					trace["identifiers_rotated"] = "these identifiers named other tasks in earlier batches of this run"
+				}
 				// The proposal is posted as RAW JSON written by the harness's own types (what an
 				// unchanged proposer puts on the board: every field present, a zero-length payload
 				// as "" and an absent one as null), and the reference is computed from those same
